@@ -7,6 +7,8 @@ import (
 	"encoding/binary"
 	"encoding/json"
 	"fmt"
+	"io"
+	"os"
 	"reflect"
 	"testing"
 	"unicode/utf8"
@@ -129,7 +131,19 @@ func checkEncode(fs *gen.FileSpec, labels map[string]int) (string, bool) {
 		}
 		return "", true
 	}
+	if msg := prof.SpareIntact(f); msg != "" {
+		return "Encode wrote into memory of the caller that is not part of the File: " + msg, false
+	}
 	data := buf.Bytes()
+	if msg := gen.CheckWriterKind(os.Getenv("VERIF_BUILD"), len(data)+len(fs.Slots)+1, data, func(w io.Writer) error {
+		again, err := gen.BuildFile(fs)
+		if err != nil {
+			return err
+		}
+		return fit.Encode(w, again, order(fs.BigEndian))
+	}); msg != "" {
+		return "Encode: " + msg, false
+	}
 	p, perr := fitmodel.Parse(data)
 	if perr != nil {
 		return fmt.Sprintf("output does not parse under the FIT grammar: %v\nbytes: %s", perr, hx.Hex(data)), false
@@ -339,6 +353,50 @@ func TestC05(t *testing.T) {
 				}
 			}
 			rec.Eval("empty+all-invalid", n)
+
+			// sparse: a file_id with nothing but the type, and every other
+			// message carrying exactly one field - its first struct field
+			// when that is a one-byte scalar (then several messages of
+			// different types have byte-identical definitions apart from the
+			// message number), else its first scalar field
+			ns := int64(0)
+			for _, ft := range prof.FileTypes {
+				for _, be := range []bool{false, true} {
+					fs := &gen.FileSpec{Type: int(ft), HdrCRC: be, Proto: 0x20, BigEndian: be, FileId: gen.MsgSpec{Fields: map[string]fitmodel.Val{}}}
+					for _, s := range append(prof.FileSlots(), prof.Slots(ft)...) {
+						if s.Name == "FileId" {
+							continue
+						}
+						mi := prof.Table().Msgs[s.Msg]
+						var pick *fitmodel.FieldInfo
+						for _, fi := range mi.BySIdx {
+							if fi == nil || fi.Array || fi.Kind != fitmodel.KindNative {
+								continue
+							}
+							bt := fitmodel.MustBase(fi.Base)
+							if bt.String || bt.Float {
+								continue
+							}
+							pick = fi
+							break
+						}
+						if pick == nil {
+							continue
+						}
+						v := fitmodel.U(1)
+						if fitmodel.MustBase(pick.Base).Signed {
+							v = fitmodel.I(1)
+						}
+						fs.Slots = append(fs.Slots, gen.SlotSpec{Name: s.Name, InFile: s.InFile, Msgs: []gen.MsgSpec{{Global: s.Msg, Fields: map[string]fitmodel.Val{pick.Name: v}}}})
+					}
+					ns++
+					if msg, ok := checkEncode(fs, map[string]int{}); !ok {
+						rec.Fail("sparse", "", msg, fs)
+					}
+				}
+			}
+			rec.Eval("sparse", ns)
+			rec.NonTrivialEnum(ns)
 
 			// a data section beyond 64 KiB and beyond 128 KiB (the encoder
 			// buffers all records and checksums them in one piece)
